@@ -61,7 +61,7 @@ func (s *sparse) Read(p []byte) (int, error) {
 	if rem := s.size() - s.pos; int64(k) > rem {
 		k = int(rem)
 	}
-	if s.served+int64(k) > 4<<20 {
+	if s.served+int64(k) > 64<<20 {
 		return 0, fmt.Errorf("sparse file: the media data is being read through")
 	}
 	for i := 0; i < k; i++ {
